@@ -12,5 +12,5 @@ MODULES = [
     "hierarchy",
     "attribution",
     "compare",
-    "variantmatcher", "snoop",
+    "variantmatcher", "snoop", "minmax",
 ]
